@@ -451,8 +451,9 @@ def run_subprocess(argv):
 
 F_VALUES = ["0.5", "0.1", "1", "1.0", ".5", "0.90", "+0.3", "1.", "0.000000000000001", "0.999999999999999"]
 F_BAD = ["0", "0.0", "1.5", "abc", "-0.5", "", "1.000000000000001", "2", "-1", "0..5", "1-", "+", ".", "-", "+-1", "00", "-.0"]
-UNIQ = [None, "i", "i,j", "{urn:p}i", "a@i", "{urn:p}a@i,j", "a@b@c", "@x", "x@", ",", "", "i,,j", "k"]
-IGN = [None, "i", "i,j", "{urn:p}i", "", ",", "k,i"]
+UNIQ = [None, "i", "i,j", "{urn:p}i", "a@i", "{urn:p}a@i,j", "a@b@c", "@x", "x@", ",", "", "i,,j", "k",
+        "{urn:ietf:params:xml:ns:inv}item@name", "{urn:ietf:params:xml:ns:inv}name,i", "xml:id", " i"]
+IGN = [None, "i", "i,j", "{urn:p}i", "", ",", "k,i", "{urn:ietf:params:xml:ns:inv}rev,k", "xml:lang"]
 
 
 def gen_argv(rng, f1, f2, force=None):
@@ -621,6 +622,16 @@ def main(run):
         files, ignored_pairs = [], []
         for i in range(npairs):
             k = i % 6
+            if i == 7 or i == 13:
+                # an internal DTD subset with general entities used in content and in an attribute value; names in a
+                # namespace whose URI contains "xml:" (for the Clark-notation option values)
+                ent = '<!DOCTYPE inv [<!ENTITY co "ACME"><!ENTITY yr "2026">]>'
+                l_ = ent + '<inv xmlns:n="urn:ietf:params:xml:ns:inv"><n:item n:name="a" k="1">&co; &yr;</n:item><n:item n:name="b">t</n:item></inv>'
+                r_ = ent + '<inv xmlns:n="urn:ietf:params:xml:ns:inv"><n:item n:name="b">t &co;</n:item><n:item n:name="a" k="&yr;">&co; and &yr;</n:item></inv>'
+                f1, f2 = os.path.join(tmp, "l%d.xml" % i), os.path.join(tmp, "r%d.xml" % i)
+                open(f1, "w").write(l_); open(f2, "w").write(r_)
+                files.append((f1, f2))
+                continue
             if k == 5:
                 # differing ONLY in comments below the root: one added, removed or reworded (the xml formatter drops
                 # comments before it diffs; --check must still report the difference)
